@@ -1308,6 +1308,10 @@ HAND_NEAR_MISSES += [
     (161, [("n", "int")], 'return bin(n)[3:].count("1")', {}),
     (171, [("p", "int"), ("q", "int")], "return p in (q, q)", {}),
     (192, [("nums", "list[int]")], "return sorted(nums, reverse=False)[0]", {}),
+    # a chain that mixes identity and equality: equal but distinct objects tell the two apart (q is the very object p is)
+    (124, [("p", "Varied"), ("q", "Varied"), ("r", "Varied")], "return p is q and p == r", {"alias": [(0, 1)]}),
+    (124, [("p", "Varied"), ("q", "Varied"), ("r", "Varied")], "return p == r and p is q", {"alias": [(0, 1)]}),
+    (108, [("p", "Varied"), ("q", "Varied"), ("r", "Varied")], "return p is q or p == r", {"alias": [(0, 1)]}),
     # the would-be-common operands differ in the RECEIVER of an attribute / method call, the argument of a call, the base / index of a subscript
     (110, [("la", "Label"), ("lb", "Label")], 'return la.t if lb.t else "-"', {}),
     (108, [("la", "Label"), ("lb", "Label")], 'return la.t == "ab" or lb.t == ""', {}),
